@@ -13,7 +13,12 @@ import driver
 
 DEFAULT = dict(Node="a,b,c", InitVoters="a,b,c", Value="x,y", MaxTerm="2", MaxLog="4", MaxTimer="5", MaxAE="2",
                MaxClient="1", MaxCrash="0", MaxHalf="0", MaxSnap="0", SnapSize="1", MaxRead="0", MaxCfg="0", AsyncKinds="", MaxNet="0",
-               invariants="ElectionSafety,LogMatching,NoViolation,CommittedDurable", mode="bfs", timeout="600", depth="60", workers="8")
+               invariants="ElectionSafety,LogMatching,NoViolation,CommittedDurable", mode="bfs", timeout="600", depth="60", workers="8",
+               timed="0", E="3", L="1", D="1")
+
+# RaftTimed.tla wraps the asynchronous actions; the replay driver knows them by their untimed names
+TIMED_NAMES = {"TTimerFire": "TimerFireA", "TStartRound": "StartRound", "TClientSubmit": "ClientSubmit", "TRVHandle": "RVHandle",
+               "TRVReply": "RVReply", "TAEHandle": "AEHandle", "TAEReply": "AEReply"}
 
 
 def proj(s):
@@ -35,22 +40,27 @@ def main():
     d = os.path.join(driver.OUT, "attack-" + w)
     shutil.rmtree(d, ignore_errors=True)
     os.makedirs(d)
-    driver.stage_spec(d, ["Raft.tla", "MC_core3.tla"])
+    timed = opt["timed"] == "1"
+    driver.stage_spec(d, ["Raft.tla", "MC_core3.tla", "RaftTimed.tla"])
     setv = lambda v: "{" + ", ".join(x for x in v.split(",") if x) + "}"
     strset = lambda v: "{" + ", ".join('"%s"' % x for x in v.split(",") if x) + "}"
     cfg = "CONSTANTS\n  Node = %s\n  InitVoters = %s\n  Value = %s\n  Nil = Nil\n" % (setv(opt["Node"]), setv(opt["InitVoters"]), setv(opt["Value"]))
     for k in ("MaxTerm", "MaxLog", "MaxTimer", "MaxAE", "MaxClient", "MaxCrash", "MaxHalf", "MaxNet", "MaxSnap", "SnapSize", "MaxRead", "MaxCfg"):
         cfg += "  %s = %s\n" % (k, opt[k])
-    cfg += "  AsyncKinds = %s\n  W = %s\n  Gen = TRUE\n" % (strset(opt["AsyncKinds"]), strset(w))
-    cfg += "SPECIFICATION Spec\nINVARIANTS %s\nCHECK_DEADLOCK FALSE\n" % " ".join(opt["invariants"].split(","))
-    if opt["mode"] == "bfs" and opt.get("symmetry", "1") == "1":
+    cfg += "  AsyncKinds = %s\n  W = %s\n  Gen = TRUE\n  MayTimeout = %s\n" % (strset(opt["AsyncKinds"]), strset(w), setv(opt.get("MayTimeout", opt["Node"])))
+    if timed:
+        cfg += "  E = %s\n  L = %s\n  D = %s\n  TP = %d\n  InitAge = %s\nINIT TInit\nNEXT TNext\nINVARIANTS %s\nCHECK_DEADLOCK FALSE\n" % (
+            opt["E"], opt["L"], opt["D"], 2 * int(opt["E"]), opt["E"], " ".join(opt["invariants"].split(",")))
+    else:
+        cfg += "SPECIFICATION Spec\nINVARIANTS %s\nCHECK_DEADLOCK FALSE\n" % " ".join(opt["invariants"].split(","))
+    if not timed and opt["mode"] == "bfs" and opt.get("symmetry", "1") == "1":
         cfg += "SYMMETRY Symm\n"
     open(os.path.join(d, "atk.cfg"), "w").write(cfg)
     cmd = driver.tlc_cmd(["-Xmx12g"]) + ["-workers", opt["workers"], "-metadir", os.path.join(d, "md"), "-config", "atk.cfg",
                                           "-dumpTrace", "json", os.path.join(d, "cex.json")]
     if opt["mode"] == "sim":
         cmd += ["-simulate", "-depth", opt["depth"]]
-    cmd += ["MC_core3.tla"]
+    cmd += ["RaftTimed.tla" if timed else "MC_core3.tla"]
     t0 = time.time()
     try:
         r = subprocess.run(cmd, cwd=d, capture_output=True, text=True, timeout=int(opt["timeout"]))
@@ -81,10 +91,15 @@ def main():
     steps = []
     for pre, act, post in cex:
         ctx = act.get("context", {})
-        name = act["name"]
+        name = TIMED_NAMES.get(act["name"], act["name"])
         before = {key(m) for m in pre[1].get("net", [])}
         after = {key(m) for m in post[1].get("net", [])}
-        if name == "Next":
+        if name == "AddServer":
+            name = "AddVoter" if ctx.get("voter") else "AddNonVoter"
+        lost = []
+        if name == "Tick":
+            lost = [msg(m) for m in pre[1].get("net", []) if key(m) not in after]
+        if name in ("Next", "TNext"):
             # TLC does not split `\\E m \\in net : ...`: recover the action and its message from the change of `net'
             gone = [m for m in pre[1].get("net", []) if key(m) not in after]
             assert len(gone) == 1, gone
@@ -108,14 +123,16 @@ def main():
         if "m" in ctx:
             st["m"] = msg(ctx["m"])
             st["n"], st["p"] = st["m"]["from"], st["m"]["to"]
+        if lost:
+            st["lost"] = lost
         st["spawn"] = [msg(m) for m in post[1].get("net", []) if key(m) not in before and m["kind"] in ("rvq", "aeq")]
         steps.append(st)
     voters = [x for x in opt["InitVoters"].split(",") if x]
     extra = [x for x in opt["Node"].split(",") if x and x not in voters]
     sc = {"name": "atk-" + w, "family": family, "attack": w, "violates": m.group(1), "voters": voters, "extra": extra, "controlled": True, "auto": False,
-          "heal": True, "heal_et": 60, "spec": steps,
+          "heal": True, "heal_et": 60, "spec": steps, **({"tick_ms": 1000, "et_ms": 1000 * int(opt["E"]), "lease_ms": 1000 * int(opt["L"])} if timed else {}),
           "comment": "TLC counterexample (%s, %s) of Raft.tla with W = {%s}; constants %s" % (opt["mode"], m.group(1), w,
-                     {k: opt[k] for k in ("Node", "InitVoters", "MaxTerm", "MaxTimer", "MaxAE", "MaxCrash", "MaxHalf", "AsyncKinds")})}
+                     {k: opt[k] for k in ("Node", "InitVoters", "MaxTerm", "MaxTimer", "MaxAE", "MaxCrash", "MaxHalf", "AsyncKinds") + (("E", "L", "D") if timed else ())})}
     os.makedirs(os.path.join(ROOT, "corpus", family), exist_ok=True)
     path = os.path.join(ROOT, "corpus", family, "atk-%s%s.json" % (w, opt.get("suffix", "")))
     json.dump(sc, open(path, "w"), indent=0)
